@@ -61,11 +61,11 @@ FailedTests(node, v, p) ==
   LET ty == DType(node)
       R[i \in 0..Len(node.tests)] ==
         IF i = 0 THEN <<>>
-        ELSE IF Pass(node.tests[i], v) THEN R[i - 1]
+        ELSE IF PassN(node, node.tests[i], v) THEN R[i - 1]
         ELSE Append(R[i - 1], TIss(p, node.tests[i], ty))
   IN R[Len(node.tests)]
 
-AnyFails(node, v) == \E i \in DOMAIN node.tests : ~Pass(node.tests[i], v)
+AnyFails(node, v) == \E i \in DOMAIN node.tests : ~PassN(node, node.tests[i], v)
 
 (***************************************************************************)
 (* RefParse(node, in, p, fe): the issues (as a sequence in declaration     *)
@@ -241,7 +241,7 @@ RefDestValidate(node, dp, d) ==
 (* to know which optional nodes were absent), never at the traversal.      *)
 (* Exemptions: absent optional node; catching node holding its catch value.*)
 (***************************************************************************)
-AllPass(node, v) == \A i \in DOMAIN node.tests : Pass(node.tests[i], v)
+AllPass(node, v) == \A i \in DOMAIN node.tests : PassN(node, node.tests[i], v)
 
 RECURSIVE ValidP(_, _, _, _, _)
 ValidP(node, in, d, dp, fe) ==
